@@ -609,3 +609,213 @@ func c05rMin(a, b int) int {
 	}
 	return b
 }
+
+// ---------------------------------------------------------------------------
+// requests WITHOUT a JSON body: the json part of the request struct is an empty document
+
+type c05rChunked struct{ r io.Reader }
+
+func (c c05rChunked) Read(p []byte) (int, error) { return c.r.Read(p) }
+
+// TestVerifC05NoBody: request structs with path/form/header parts AND json members (required,
+// optional, default=) are parsed by httpx.Parse / ParseJsonBody from requests that carry no JSON
+// document: GET, POST with an empty body, a body with a non-JSON content type, a chunked `{}`.
+// The json part is then the empty document: a required json member makes the parse fail, defaults
+// are applied, optional members stay zero; the other parts arrive exactly.
+func TestVerifC05NoBody(t *testing.T) {
+	m := vk.New(t, "C05", "request structs with path/form/header parts and generated json members x requests without a JSON document (GET; POST empty body with JSON content type; POST text/plain and form-urlencoded bodies; chunked {} body; JSON body with ContentLength but no JSON content type) through httpx.Parse behind the real router and through ParseJsonBody alone: audited as the empty json document (required member absent => error; default= applied; optional zero; other parts exact); non-trivial = both an accepted and a refused variant seen for the shape family")
+	defer m.Done()
+	logx.Disable()
+	srv := &c05rServer{}
+	srv.srv = httptest.NewServer(srv)
+	defer srv.srv.Close()
+	n := vk.N(500, 15000)
+	for idx := 1; idx <= n; idx++ {
+		if !m.Only(idx) {
+			continue
+		}
+		r := m.Rand("nobody", idx)
+		q := c05rShape(r, idx)
+		var c *g.Case
+		ok := false
+		for try := 0; try < 10 && !ok; try++ {
+			c = g.ValidCase(r, q.shape, false, false)
+			ok = q.domain(r, c.Expect.Elem())
+		}
+		if !ok {
+			continue
+		}
+		rt := router.NewRouter()
+		for _, method := range []string{http.MethodGet, http.MethodPost} {
+			if err := rt.Handle(method, q.pattern, http.HandlerFunc(srv.parse)); err != nil {
+				m.Inconclusive("case %d: router.Handle: %v", idx, err)
+			}
+		}
+		srv.mu.Lock()
+		srv.handler, srv.shape = rt, q.shape
+		srv.mu.Unlock()
+		base, err := buildRequest(context.Background(), http.MethodPost, srv.srv.URL+q.pattern, c.Expect.Interface())
+		if err != nil {
+			m.Count("skipped.build-error", 1)
+			continue
+		}
+		// the document the server sees: the non-json parts as sent, no json member at all
+		doc := map[string]any{}
+		jsonMembers, requiredJSON, simpleJSON := 0, false, true
+		seenKey, clash := map[string]bool{}, false
+		for _, f := range q.shape.Root.Fields {
+			k := strings.ToLower(f.DocKey())
+			clash = clash || seenKey[k]
+			seenKey[k] = true
+		}
+		if clash {
+			m.Count("skipped.same-key-in-two-parts", 1) // the audit addresses members by key: keep keys distinct across parts
+			continue
+		}
+		for i, f := range q.shape.Root.Fields {
+			switch q.parts[f.Name] {
+			case "json":
+				jsonMembers++
+				bt := f.T
+				if bt.K == g.Ptr {
+					bt = bt.Elem
+				}
+				if !f.O.Optional && !f.O.HasDefault && (bt.K.IsLeaf() || bt.K == g.Slice) {
+					requiredJSON = true
+				}
+				if !(f.O.Optional || f.O.HasDefault) && bt.K != g.Map {
+					simpleJSON = false // a struct member may or may not need content: acceptance not asserted
+				}
+			case "form":
+				if s := fmt.Sprint(c.Expect.Elem().Field(i).Interface()); s != "" {
+					doc[f.Key] = s
+				}
+			default:
+				doc[f.Key] = fmt.Sprint(c.Expect.Elem().Field(i).Interface())
+			}
+		}
+		type variant struct {
+			name string
+			mk   func() *http.Request
+		}
+		clone := func(method string, body io.Reader, ctype string) *http.Request {
+			nr, _ := http.NewRequest(method, base.URL.String(), body)
+			for k, v := range base.Header {
+				if k != "Content-Type" {
+					nr.Header[k] = v
+				}
+			}
+			if ctype != "" {
+				nr.Header.Set("Content-Type", ctype)
+			}
+			return nr
+		}
+		variants := []variant{
+			{"GET", func() *http.Request { return clone(http.MethodGet, nil, "") }},
+			{"GET+json-content-type", func() *http.Request { return clone(http.MethodGet, nil, "application/json") }},
+			{"POST-empty-body", func() *http.Request { return clone(http.MethodPost, nil, "application/json") }},
+			{"POST-text-plain", func() *http.Request { return clone(http.MethodPost, strings.NewReader("hello"), "text/plain") }},
+			{"POST-urlencoded", func() *http.Request {
+				return clone(http.MethodPost, strings.NewReader("zzUnused=1"), "application/x-www-form-urlencoded")
+			}},
+			{"POST-json-body-without-json-content-type", func() *http.Request { return clone(http.MethodPost, strings.NewReader("{}"), "") }},
+			{"POST-chunked-empty-object", func() *http.Request {
+				nr := clone(http.MethodPost, c05rChunked{strings.NewReader("{}")}, "application/json")
+				nr.ContentLength = -1
+				return nr
+			}},
+		}
+		vr := variants[idx%len(variants)]
+		v2 := variants[(idx/len(variants)+idx+1)%len(variants)]
+		acc, rej := 0, 0
+		for _, va := range []variant{vr, v2} {
+			req := va.mk()
+			d := fmt.Sprintf("case=%d;request=%s %s;shape=%s;non-json parts sent=%s", idx, va.name, req.URL.String(), q.shape.String(), g.JSON(doc))
+			m.Current(d)
+			hit, perr, pv, got, terr := srv.send(req)
+			m.Count("nobody.requests."+va.name, 1)
+			switch {
+			case terr != nil:
+				m.Inconclusive("case %d: transport error: %v", idx, terr)
+			case !hit:
+				m.Violate("C05:roundtrip:not-routed", d, "the request did not reach the handler")
+			case pv != nil:
+				m.Violate("C05:roundtrip:server-panic", d, "httpx.Parse panicked: %v", pv)
+			case perr != nil:
+				rej++
+				m.Count("nobody.refused", 1)
+				if jsonMembers == 0 || (simpleJSON && !requiredJSON) {
+					m.Violate("C05:httpx-no-body:valid-rejected", d, "no json member is required, yet the request without a JSON document is refused: %v", perr)
+				}
+			default:
+				acc++
+				m.Count("nobody.accepted", 1)
+				if fd := g.Audit(q.shape, got, doc, g.AuditOpt{}); fd != nil {
+					m.Violate("C05:httpx-no-body:"+strings.TrimPrefix(fd.Sig, "C05:"), d, "%s\nparsed: %s", fd.Detail, g.Show(got))
+				} else if requiredJSON {
+					m.Violate("C05:httpx-no-body:required-absent-accepted", d, "a required json member exists, the request has no JSON document, no error; parsed: %s", g.Show(got))
+				}
+			}
+		}
+		m.Case(q.shape.String(), jsonMembers > 0 && acc+rej > 0)
+		if m.WantSample() && idx%97 == 1 {
+			m.Sample(map[string]any{"request": vr.name, "shape": q.shape.String(), "json_members": jsonMembers, "required_json_member": requiredJSON, "accepted": acc, "refused": rej})
+		}
+	}
+
+	// ParseJsonBody alone, fixed struct: required / default / optional json members
+	type fixed struct {
+		Name string   `json:"name"`
+		Size int8     `json:"size,default=7"`
+		Sort string   `json:"sort,optional,options=asc|desc"`
+		Tags []string `json:"tags,default=[a,b]"`
+	}
+	type fixedOpt struct {
+		Size int8     `json:"size,default=7"`
+		Sort string   `json:"sort,optional"`
+		Tags []string `json:"tags,default=[a,b]"`
+		Q    int      `form:"q,optional"`
+	}
+	mkReqs := func() map[string]*http.Request {
+		out := map[string]*http.Request{}
+		out["GET"], _ = http.NewRequest(http.MethodGet, "http://h/x?q=3", nil)
+		out["POST-empty"], _ = http.NewRequest(http.MethodPost, "http://h/x?q=3", http.NoBody) // a server-side request always has a Body
+		out["POST-empty"].Header.Set("Content-Type", "application/json")
+		out["POST-text"], _ = http.NewRequest(http.MethodPost, "http://h/x?q=3", strings.NewReader(`{"name":"n"}`))
+		out["POST-text"].Header.Set("Content-Type", "text/plain")
+		out["POST-chunked"], _ = http.NewRequest(http.MethodPost, "http://h/x?q=3", c05rChunked{strings.NewReader("{}")})
+		out["POST-chunked"].Header.Set("Content-Type", "application/json")
+		out["POST-chunked"].ContentLength = -1
+		return out
+	}
+	for _, name := range []string{"GET", "POST-empty", "POST-text", "POST-chunked"} {
+		for _, fn := range []string{"Parse", "ParseJsonBody"} {
+			parse := httpx.Parse
+			if fn == "ParseJsonBody" {
+				parse = httpx.ParseJsonBody
+			}
+			d := fmt.Sprintf("case=%d;fixed struct;request=%s;func=httpx.%s", n+1, name, fn)
+			var f1 fixed
+			var f2 fixedOpt
+			var e1, e2 error
+			var pv any
+			func() {
+				defer func() { pv = recover() }()
+				e1 = parse(mkReqs()[name], &f1)
+				e2 = parse(mkReqs()[name], &f2)
+			}()
+			m.Case(d, true)
+			m.Count("nobody.fixed-probes", 2)
+			switch {
+			case pv != nil:
+				m.Violate("C05:roundtrip:server-panic", d, "panic: %v", pv)
+			case e1 == nil:
+				m.Violate("C05:httpx-no-body:required-absent-accepted", d, "required json member `name` absent (no JSON document), no error: %+v", f1)
+			case e2 != nil:
+				m.Violate("C05:httpx-no-body:valid-rejected", d, "struct without required json members refused: %v", e2)
+			case f2.Size != 7 || f2.Sort != "" || !reflect.DeepEqual(f2.Tags, []string{"a", "b"}) || (fn == "Parse" && f2.Q != 3):
+				m.Violate("C05:httpx-no-body:default-not-applied", d, "defaults of json members not applied without a JSON document: %+v", f2)
+			}
+		}
+	}
+}
